@@ -44,7 +44,7 @@ func Register() {
 			"htlc.incoming_claimed", "htlc.incoming_refunded", "htlc.outgoing_claimed", "htlc.outgoing_refunded",
 			"htlc.window_reset", "htlc.window_reset_with_activity", "htlc.window_reset_exact", "htlc.window_single_delta",
 			"htlc.limit_rejected_total", "htlc.limit_rejected_time", "htlc.out_rejected_available",
-			"htlc.params_changed", "htlc.params_stranger_rejected", "htlc.params_invalid_rejected", "htlc.donation",
+			"htlc.params_changed", "htlc.params_stranger_rejected", "htlc.params_invalid_rejected",
 			"htlc.params_toggle-time-limited", "htlc.params_period", "htlc.params_lower-limit", "htlc.params_deputy"},
 		Rule: "a run is non-trivial when the asset counters were compared with the model after at least one block, at least one incoming transfer completed (so current supply and bank supply moved), and more than two cross-chain transfers were created; distinct = different fingerprint of the executed (operation kind, outcome class) sequence",
 	})
